@@ -756,7 +756,10 @@ def run(ctx):
         ctx.pmap(MOD, "task", tasks[::9], hashseed=hs)
     c = ctx.res.counters
     spaces = {}
-    stats = sorted(ctx.res.sets.get("stats", ()), key=lambda s: s[1])
+    by_id = {}
+    for s in sorted(ctx.res.sets.get("stats", ()), key=lambda s: (s[1], -s[5])):
+        by_id.setdefault(s[1], s)  # one row per task of the plan (the hash-seed passes run some of them again: not counted twice)
+    stats = [by_id[k] for k in sorted(by_id)]
     for sp, _, ng, nm, nx, _ in stats:
         d = spaces.setdefault(sp, dict(tasks=0, graphs_or_datasets=0, mazes=0, executions=0))
         d["tasks"] += 1
